@@ -10,7 +10,7 @@ Definition out (r : sset * nat * bool) : list Z * list Z * Z * bool :=
 Lemma eqb_nat a b : (Z.of_nat a =? Z.of_nat b) = Nat.eqb a b.
 Proof. destruct (Nat.eqb_spec a b) as [->|H]; [apply Z.eqb_refl|]. apply Z.eqb_neq. lia. Qed.
 Lemma isSmall_tv s : isSmall_gen (sset_ s) = ss_small s.
-Proof. unfold isSmall_gen, is_nil, ss_small. reflexivity. Qed.
+Proof. unfold isSmall_gen, ss_small. destruct (sset_ s); reflexivity. Qed.
 
 (* insertion in the inline state, including the transition to the large state at exactly N elements *)
 Theorem insert_small_tv cmp N s v : ss_small s = true ->
